@@ -185,6 +185,38 @@ fn analysis_items() -> Vec<Item> {
         spec.exception = Some(ExcSpec { tid: 1, has_ctx: true, ctx_ok: true, ctx_ip: 0x400150, ctx_sp: 0x10008, code: 0xC000_0005, flags: 0, address: 0x400150, nparams: 2, info, ctx_patch: patch });
         v.push(Item { name: format!("analysis-bitflip-{}regs", nregs), cpu: "amd64".into(), dump: build(&spec), symbols: HashMap::new(), corrupted: false });
     }
+    // (1a) the crashing instruction has a two-register memory operand and both registers are one bit away from mapped memory:
+    //      the order in which their candidates are reported must not depend on anything but the dump
+    for (k, (op, base_off, index_off, scale)) in [(&[0x48u8, 0x8b, 0x04, 0xcb][..], 144usize, 128usize, 8u64), (&[0x48, 0x8b, 0x04, 0xbe][..], 168, 176, 4), (&[0x48, 0x8b, 0x04, 0x1a][..], 136, 144, 1),
+                                                     (&[0x48, 0x8b, 0x04, 0x0e][..], 168, 128, 1), (&[0x48, 0x8b, 0x04, 0x3b][..], 144, 176, 1), (&[0x48, 0x8b, 0x04, 0xd1][..], 128, 136, 8)].into_iter().enumerate() {
+        let mut spec = DumpSpec { os: "windows".into(), cpu: "amd64".into(), ..DumpSpec::default() };
+        spec.threads.push(ThreadSpec { id: 1, ctx_ok: true, name: None, ip: 0x400150, sp: 0x10008, stack_base: 0x10000, stack: vec![0u8; 64] });
+        spec.modules = vec![ModuleSpec { base: 0x400000, size: 0x1000, name: "m1".into() }];
+        spec.memory_info = vec![RegionSpec { base: 0x10000, size: 0x8000, protection: 4, state: 0x1000 }, RegionSpec { base: 0x400000, size: 0x1000, protection: 0x20, state: 0x1000 }];
+        let mut bytes = op.to_vec();
+        bytes.resize(16, 0x90);
+        spec.extra_memory.push((0x400150, bytes)); // mov rax, [base + index*scale] for six register pairs
+        let (b, i) = (0x10010u64 | (1u64 << 36), 0x10020u64 | (1u64 << 41));
+        let mut info = [0u64; 15];
+        info[1] = b.wrapping_add(i.wrapping_mul(scale));
+        spec.exception = Some(ExcSpec { tid: 1, has_ctx: true, ctx_ok: true, ctx_ip: 0x400150, ctx_sp: 0x10008, code: 0xC000_0005, flags: 0, address: 0x400150, nparams: 2, info,
+                                        ctx_patch: vec![(base_off, b), (index_off, i)] });
+        v.push(Item { name: format!("analysis-bitflip-two-registers-{}", k), cpu: "amd64".into(), dump: build(&spec), symbols: HashMap::new(), corrupted: false });
+    }
+    // (1c) a call that is the last instruction of its module: the return address is the first byte of the module mapped right behind it
+    //      (and, in the second item, of nothing); the frame belongs to the module of the call
+    for (k, second) in [true, false].into_iter().enumerate() {
+        for cpu in ["amd64", "x86"] {
+            let mut spec = DumpSpec { os: "linux".into(), cpu: cpu.into(), ..DumpSpec::default() };
+            let mut stack = vec![0u8; 64];
+            stack[8..16].copy_from_slice(&0x401000u64.to_le_bytes());
+            stack[4..8].copy_from_slice(&0x401000u32.to_le_bytes());
+            spec.threads.push(ThreadSpec { id: 1, ctx_ok: true, name: None, ip: 0x400150, sp: 0x10000, stack_base: 0x10000, stack });
+            spec.modules = vec![ModuleSpec { base: 0x400000, size: 0x1000, name: "a.so".into() }];
+            if second { spec.modules.push(ModuleSpec { base: 0x401000, size: 0x1000, name: "b.so".into() }); }
+            v.push(Item { name: format!("analysis-call-at-module-end-{}-{}", cpu, k), cpu: cpu.into(), dump: build(&spec), symbols: HashMap::new(), corrupted: false });
+        }
+    }
     // (1b) the dump header has no time stamp (zeroed here) but the process start time is known: anything
     //      derived from "the time of the crash" must come from the dump, not from the clock.  The name asks the determinism
     //      recorder to let a second pass before the last run.
